@@ -56,6 +56,11 @@ def one_order(scn, defn, spec, prefix, pick=None):
     if drv.status() in provider.TERMINAL:
         drv.apply({"op": "output"})
     st_ = drv.c.serialize()
+    fired = set()
+    for e in st_["state"]["sequence"]:
+        for (src, dst, key, attrs) in drv.c.graph.get_next_transitions(e["id"]):
+            if (e.get("next") or {}).get("%s__t%s" % (dst, key)):
+                fired.add("%s__t%d" % (src, attrs.get("ref")))
     res = {
         "status": drv.status(),
         "executed": sorted(collections.Counter(t for t, r, i in drv.dispatched).items()),
@@ -63,6 +68,8 @@ def one_order(scn, defn, spec, prefix, pick=None):
         "output": st_["output"] or {},
         "errors": sorted(e.get("message", "")[:60] for e in st_["errors"]),
         "dup_inflight": False,
+        # publishing transitions that fired: "<task>__t<index of the transition in the task's next list>"
+        "fired": sorted(fired),
     }
     return res, bf, path, drv
 
@@ -82,6 +89,19 @@ def run(scn, stats):
     spec = drv0.spec
     rch = lang.reach(ir)
     wr = writers(ir)
+    def concurrent_vars(fired):
+        """variables written by two concurrent branches *in this scenario*: two of the publishing
+        transitions that fired belong to one task or to graph-incomparable tasks"""
+        out = set()
+        for var, ws in wr.items():
+            ws = sorted(w for w in ws if "%s__t%d" % w in fired)
+            for i in range(len(ws)):
+                for j in range(i + 1, len(ws)):
+                    (ta, ia), (tb, ib) = ws[i], ws[j]
+                    if ta == tb or (tb not in rch[ta] and ta not in rch[tb]):
+                        out.add(var)
+        return out
+
     concurrent = set()
     for var, ws in wr.items():
         ws = sorted(ws)
@@ -162,6 +182,13 @@ def run(scn, stats):
         ex = {s: next(p for p, r in leaves if r["status"] == s) for s in distinct_status}
         raise Violation("status-depends-on-order", dict(info, statuses=sorted(distinct_status), example_orders=ex, errors={r["status"]: r["errors"] for _, r in leaves}))
     if base["status"] == "succeeded":
+        fired = set()
+        for _, r in leaves:
+            fired |= set(r["fired"])
+        static_concurrent = concurrent
+        concurrent = concurrent_vars(fired)
+        if static_concurrent - concurrent:
+            stats.label("single-branch-writer-at-run-time")
         for p, r in leaves[1:]:
             if r["executed"] != base["executed"]:
                 raise Violation("executed-tasks-depend-on-order", dict(info, a=base["executed"], b=r["executed"], order_a=base_path, order_b=p))
@@ -173,7 +200,7 @@ def run(scn, stats):
                     continue
                 if common.jd(base["output"].get(k)) != common.jd(r["output"].get(k)):
                     vals = sorted({common.jd(x["output"].get(k)) for _, x in leaves})
-                    raise Violation("output-depends-on-order", dict(info, variable=var, values=vals, writers=sorted({t for t, _ in wr.get(var, [])}), order_a=base_path, order_b=p))
+                    raise Violation("output-depends-on-order", dict(info, variable=var, values=vals, writers=sorted({t for t, i_ in wr.get(var, []) if "%s__t%d" % (t, i_) in fired}), order_a=base_path, order_b=p))
     stats.label("status:" + base["status"], "exhaustive" if exhaustive else "sampled")
     multi = any(t.get("join") is not None or lang.is_split(ir, n) for n, t in ir["tasks"].items())
     if len(leaves) >= 2 and multi:
